@@ -296,6 +296,9 @@ type NetSpec struct {
 	// Connect faults by upstream tag: refuse | blackhole
 	Connect    map[string]string `json:"connect,omitempty"`
 	Partitions []Partition       `json:"partitions,omitempty"`
+	// ICMP: a datagram to a port nobody listens on bounces "connection
+	// refused" to a connected sender (port unreachable).
+	ICMP bool `json:"icmp,omitempty"`
 }
 
 type Partition struct {
@@ -350,6 +353,8 @@ type ServerEvent struct {
 	Up   int    `json:"up"`
 	AtUs int64  `json:"at_us"`
 	Kind string `json:"kind"`
+	// DownMs (kind "down"): the server stops listening for this long.
+	DownMs int `json:"down_ms,omitempty"`
 }
 
 // ---- limiter family ----
